@@ -40,8 +40,10 @@ def step (st : St) (toks : List String) (impl : String) : St × LineResult :=
         let (mon', vs) := CircuitKey.check st.mon ev
         -- clause D57: the collision involves a circuit-id outside the injective domain (longer than 32 bytes or
         -- ending in a zero byte) — the mechanism of the finding; any other collision is a new violation
+        -- … AND the model's own key function reproduces the collision on that pair (a collision the model does not
+        -- predict — e.g. a key built from fewer bytes — is a regression, never the finding)
         let clause := fun (n : String) (other : List UInt8) =>
-          if n == "dup-key" && (!keySafe cid || !keySafe other) then "D57" else "none"
+          if n == "dup-key" && (!keySafe cid || !keySafe other) && makeKey cid == makeKey other then "D57" else "none"
         ({ st with mon := mon' },
          { modelObs := bytesToHex (makeKey cid), viols := vs.map fun (n, d, o) => (n, clause n o, d) })
       else if kind == "hash" then
@@ -49,18 +51,23 @@ def step (st : St) (toks : List String) (impl : String) : St × LineResult :=
           | some x => Ev.hash cid x
           | none => .nop
         let (mon', vs) := CircuitKey.check st.mon ev
-        -- clause D58: a 64-bit hash of an unbounded string cannot be injective; every hash collision is that finding
+        -- clause D58: a 64-bit hash of an unbounded string cannot be injective; a hash collision is that finding only
+        -- when the model's FNV-1a collides on the same pair (a collision of a weaker hash is a regression)
         ({ st with mon := mon' },
-         { modelObs := toHexW (CircuitKey.hash cid).toNat 16, viols := vs.map fun (n, d, _) => (n, if n == "dup-key" then "D58" else "none", d) })
+         { modelObs := toHexW (CircuitKey.hash cid).toNat 16,
+           viols := vs.map fun (n, d, o) =>
+             (n, if n == "dup-key" && CircuitKey.hash cid == CircuitKey.hash o then "D58" else "none", d) })
       else if kind == "mac" then
         let ev := match parseHex impl with
           | some x => Ev.mac cid x
           | none => .nop
         let (mon', vs) := CircuitKey.check st.mon ev
         -- clause KF-mackey-hlen: the collision involves a hardware address that is not 6 bytes long (shorter ones
-        -- all get key 0, longer ones are cut to 6 bytes); a collision between two 6-byte addresses is a new violation
+        -- all get key 0, longer ones are cut to 6 bytes) AND the model's macKey collides on the pair; a collision between
+        -- two 6-byte addresses, or one the model does not reproduce, is a new violation
         let clause := fun (n : String) (other : List UInt8) =>
-          if n == "dup-key" && (cid.length != 6 || other.length != 6) then "KF-mackey-hlen" else "none"
+          if n == "dup-key" && (cid.length != 6 || other.length != 6) && macKey cid == macKey other
+          then "KF-mackey-hlen" else "none"
         ({ st with mon := mon' },
          { modelObs := toHexW (macKey cid) 12, viols := vs.map fun (n, d, o) => (n, clause n o, d) })
       else (st, { modelObs := "badop" })
